@@ -125,7 +125,7 @@ func fGenLayout(thorough bool) (*fDoc, Options) {
 	inds := [][2]string{{"    ", "    "}, {" ", "\t"}, {"        ", "  "}}[zzverif.Choice("inds", 3)]
 	d.add(fLayoutPosting("p0", inds[0], zzverif.Choice("p0.acct", fAcctKinds), zzverif.Choice("p0.mark", 4), zzverif.Choice("p0.amt", 3)).line())
 	if thorough {
-		d.add(fLayoutPosting("p1", inds[1], zzverif.Choice("p1.acct", fAcctKinds), zzverif.Choice("p1.mark", 4), zzverif.Choice("p1.amt", 3)).line())
+		d.add(fLayoutPosting("p1", inds[1], []int{0, 2, 4}[zzverif.Choice("p1.acct", 3)], zzverif.Choice("p1.mark", 4), zzverif.Choice("p1.amt", 3)).line())
 		if zzverif.Choice("np", 2) == 1 {
 			d.add(fLayoutPosting("p2", inds[0], 1, 0, 1+zzverif.Choice("p2.amt", 2)).line())
 		}
@@ -189,9 +189,13 @@ func fGenAmounts(thorough bool) (*fDoc, Options) {
 // ---------------------------------------------------------------- generator T: text around postings
 //
 // case 0: header shapes x inline comments (with / without tags, with / without leading blank)
-//         x comment lines between postings;
+//
+//	x comment lines between postings;
+//
 // case 1: leading and trailing material (line comments, directives, blank lines) x line-end
-//         style x final line end;
+//
+//	style x final line end;
+//
 // case 2: trailing blanks on one line or on every line of a document that has every line kind.
 var fDirectives = []string{
 	"account assets:cash  ; type:A, note",
